@@ -114,8 +114,8 @@ def tag_of(spec, mode, top=True):
 
 
 def cv(c):
-    """canonical value -> Coq term of type v (lists eager; atoms that are neither int
-    nor str become marked strings, injectively)."""
+    """canonical value -> Coq term of type v (lists eager; rationals become reserved
+    VNums; other atoms that are neither int nor str become marked strings, injectively)."""
     if isinstance(c, bool):
         c = int(c)
     if isinstance(c, int):
@@ -124,6 +124,9 @@ def cv(c):
         return f"VStr {V.cstr(c)}"
     if isinstance(c, list):
         return "VList false " + V.clist(("(" + cv(y) + ")" for y in c), "v")
+    if isinstance(c, dict) and "q" in c and abs(c["q"][0]) < 10 ** 15 and c["q"][1] < 10 ** 15:
+        # a rational is a NUMBER for vy_type: a VNum far outside the integers that occur
+        return f"VNum ({10 ** 40 + (c['q'][0] + 10 ** 15) * 10 ** 20 + c['q'][1]})%Z"
     return f"VStr {V.cstr(chr(1) + json.dumps(c, sort_keys=True))}"
 
 
@@ -145,14 +148,16 @@ class ScalarRejects(Exception):
         self.why = why
 
 
-def scalar_call(fn, args, cache):
+def own_call(fn, args, modes, cache):
+    """The element's own answer on one application: on scalars (every representation
+    mode is then irrelevant) or on a documented overload that takes a list whole."""
     from vyxal.context import Context
-    k = json.dumps(args, sort_keys=True)
+    k = json.dumps([args, modes], sort_keys=True)
     if k in cache:
         r = cache[k]
     else:
         try:
-            r = ("ok", canon(fn(*[build(a, "E") for a in args], ctx=Context())))
+            r = ("ok", canon(fn(*[build(a, m) for a, m in zip(args, modes)], ctx=Context())))
         except V.Timeout:
             raise
         except Huge:
@@ -167,44 +172,40 @@ def scalar_call(fn, args, cache):
     return r[1]
 
 
-def spec_apply(fn, args, cache):
-    """The nested list of the element's own scalar results the property demands."""
-    if len(args) == 1:
-        (a,) = args
-        if is_list_spec(a):
-            return [spec_apply(fn, [x], cache) for x in a]
-        return scalar_call(fn, [a], cache)
-    a, b = args
-    if is_list_spec(a) and is_list_spec(b):
-        n = max(len(a), len(b))
-        return [spec_apply(fn, [a[i] if i < len(a) else 0, b[i] if i < len(b) else 0], cache) for i in range(n)]
-    if is_list_spec(a):
-        return [spec_apply(fn, [x, b], cache) for x in a]
-    if is_list_spec(b):
-        return [spec_apply(fn, [a, y], cache) for y in b]
-    return scalar_call(fn, [a, b], cache)
-
-
-def children(args):
-    """Argument tuples of the next level that still contain a list."""
-    if len(args) == 1:
-        return [[x] for x in args[0] if is_list_spec(x)] if is_list_spec(args[0]) else []
-    a, b = args
-    if is_list_spec(a) and is_list_spec(b):
-        n = max(len(a), len(b))
-        out = [[a[i] if i < len(a) else 0, b[i] if i < len(b) else 0] for i in range(n)]
-    elif is_list_spec(a):
-        out = [[x, b] for x in a]
-    elif is_list_spec(b):
-        out = [[a, y] for y in b]
-    else:
-        out = []
-    return [c for c in out if any(is_list_spec(x) for x in c)]
+def tags_of(args, modes):
+    return tuple(tag_of(a, m) for a, m in zip(args, modes))
 
 
 def child_modes(modes):
     # below the top: L stays lazy, T becomes eager, I becomes lazy, E stays eager
     return [{"L": "L", "T": "E", "I": "L", "E": "E"}[m] for m in modes]
+
+
+def children(args, modes):
+    """The applications of the next level: [(args, modes)]."""
+    cm = child_modes(modes)
+    if len(args) == 1:
+        return [([x], cm) for x in args[0]]
+    a, b = args
+    if is_list_spec(a) and is_list_spec(b):
+        n = max(len(a), len(b))
+        return [([a[i] if i < len(a) else 0, b[i] if i < len(b) else 0], cm) for i in range(n)]
+    if is_list_spec(a):
+        return [([x, b], [cm[0], "E"]) for x in a]
+    return [([a, y], ["E", cm[1]]) for y in b]
+
+
+def spec_apply(fn, args, modes, cache, ex):
+    """The nested list of the element's own results that the property demands: list ->
+    per item; list/scalar, scalar/list -> the scalar with every item; list/list ->
+    position by position, the shorter list continued with 0; recursively.  `ex`: the
+    argument-type combinations that are documented overloads of this element -- there
+    the element's own answer is a leaf, exactly as for scalars."""
+    if not any(is_list_spec(a) for a in args):
+        return own_call(fn, args, ["E"] * len(args), cache)
+    if tags_of(args, modes) in ex:
+        return own_call(fn, args, modes, cache)
+    return [spec_apply(fn, a, m, cache, ex) for a, m in children(args, modes)]
 
 
 def impl_apply(fn, args, modes):
@@ -221,39 +222,47 @@ def impl_apply(fn, args, modes):
         return ("exc", type(e).__name__ + ": " + str(e)[:80])
 
 
-def blame(fn, args, modes, cache, depth=0):
+def blame(fn, args, modes, cache, ex, depth=0):
     """Smallest sub-application on which the implementation already differs from the
     specification while all of ITS sub-applications agree."""
-    if depth < 4:
-        cm = child_modes(modes)
-        for ch in children(args):
+    if depth < 4 and tags_of(args, modes) not in ex:
+        for ch, cm in children(args, modes):
+            if not any(is_list_spec(x) for x in ch):
+                continue
             try:
-                want = spec_apply(fn, ch, cache)
+                want = spec_apply(fn, ch, cm, cache, ex)
             except ScalarRejects:
                 continue
             got = impl_apply(fn, ch, cm)
             if got != ("ok", want):
-                return blame(fn, ch, cm, cache, depth + 1)
+                return blame(fn, ch, cm, cache, ex, depth + 1)
     return args, modes
+
+
+def patch_random():
+    # a few scalar overloads draw from `random`; make the draws a function of their
+    # arguments (this worker process only) so that "the element's result on an item" exists
+    import random
+    random.choice = lambda seq: seq[0]
+    random.randint = lambda a, b: a
+    random.shuffle = lambda x: None
 
 
 def run_case(item):
     """One (element, arguments, representation) case, in a forked worker."""
-    fnname, args, modes = item
-    import random
+    fnname, args, modes, ex = item
     from vyxal import elements as E
-    # a few scalar overloads draw from `random`; make the draws a function of their
-    # arguments (this worker process only) so that "the element's result on an item" exists
-    random.choice = lambda seq: seq[0]
-    random.randint = lambda a, b: a
-    random.shuffle = lambda x: None
+    patch_random()
     fn = getattr(E, fnname)
+    ex = {tuple(t) for t in ex}
+    if tags_of(args, modes) in ex:
+        return {"s": "documented"}
     cache = {}
     t0 = time.time()
     try:
-        want = spec_apply(fn, args, cache)
+        want = spec_apply(fn, args, modes, cache, ex)
     except ScalarRejects as r:
-        return {"s": "skip", "why": f"{r.why} on scalar types ({', '.join(TAGNAME[tag_of(a, 'E')] for a in r.sargs)})"}
+        return {"s": "skip", "why": f"{r.why} on argument types ({', '.join(TAGNAME[tag_of(a, 'E')] for a in r.sargs)})"}
     t1 = time.time()
     try:
         got = impl_apply(fn, args, modes)
@@ -265,18 +274,17 @@ def run_case(item):
     if got == ("ok", want):
         leaves = [(json.loads(k), r[1]) for k, r in cache.items() if r[0] == "ok"]
         return {"s": "ok", "got": want, "leaves": leaves}
-    # a scalar overload that answers differently when asked again (random choice) has no
-    # "list of its results": skip
-    cache2 = {}
+    # a scalar overload that answers differently when asked again has no "list of its
+    # results": skip
     try:
-        again = spec_apply(fn, args, cache2)
+        again = spec_apply(fn, args, modes, {}, ex)
     except ScalarRejects:
         again = None
     if again != want:
         return {"s": "skip", "why": "scalar overload is not deterministic on these items"}
-    bargs, bmodes = blame(fn, args, modes, cache)
+    bargs, bmodes = blame(fn, args, modes, cache, ex)
     try:
-        bwant = spec_apply(fn, bargs, cache)
+        bwant = spec_apply(fn, bargs, bmodes, cache, ex)
     except ScalarRejects:
         bwant = None
     bgot = impl_apply(fn, bargs, bmodes)
@@ -366,11 +374,14 @@ def oracle(env, gd, mon, dy):
     V.import_repo()
     from vyxal import elements as E  # noqa: F401  (imported before the workers fork)
     by = {r["key"]: r for r in gd["entries"]}
+    exempt = collections.defaultdict(list)
+    for x in gd.get("doc_exempt", []):
+        exempt[x["key"]].append(x["tags"])
     items, meta = [], []
     for key in gd["curated"]:
         r = by[key]
         for shape, args, modes in (mon if r["arity"] == 1 else dy):
-            items.append((r["fn"], args, modes))
+            items.append((r["fn"], args, modes, exempt.get(key, [])))
             meta.append((key, shape))
     t0 = time.time()
     res = V.pmap(run_case, items, timeout=env.budget(6, 10))
@@ -381,7 +392,7 @@ def oracle(env, gd, mon, dy):
     passed = []           # (key, shape, args, modes, got, leaves) for the model tie
     nfail = collections.Counter()
     depth_hist, shape_hist, type_hist = collections.Counter(), collections.Counter(), collections.Counter()
-    for (key, shape), (fnname, args, modes), (st, val) in zip(meta, items, res):
+    for (key, shape), (fnname, args, modes, _), (st, val) in zip(meta, items, res):
         c = per[key]
         c["cases"] += 1
         if st == "timeout":
@@ -394,6 +405,10 @@ def oracle(env, gd, mon, dy):
         if val["s"] == "skip":
             c["skipped"] += 1
             skips[key][val["why"]] += 1
+            continue
+        if val["s"] == "documented":
+            c["documented_overload"] += 1
+            skips[key]["documented overload (" + ", ".join(TAGNAME[t] for t in tags_of(args, modes)) + ")"] += 1
             continue
         depth_hist[max(spec_depth(a) for a in args)] += 1
         shape_hist[shape + "/" + "".join(modes)] += 1
@@ -445,11 +460,15 @@ def run_template_case(item):
 
     def fn(*xs, ctx):
         return call(*xs, ctx=ctx)
-    try:
-        want = spec_apply(fn, args, cache)
-    except ScalarRejects:
-        return "skip"
-    got = impl_apply(fn, args, modes)
+    patch_random()
+    import contextlib
+    import io
+    with contextlib.redirect_stdout(io.StringIO()):
+        try:
+            want = spec_apply(fn, args, modes, cache, set())
+        except ScalarRejects:
+            return "skip"
+        got = impl_apply(fn, args, modes)
     return "ok" if got == ("ok", want) else "differs"
 
 
@@ -525,7 +544,7 @@ def vectorise_tie(env, mon, dy):
         a = cv_in(args[0], modes[0])
         b = cv_in(args[1], modes[1]) if len(args) == 2 else "VErr"
         return f"({'true' if len(args) == 2 else 'false'}, {a}, {b}, {cv(val)})"
-    chk = (f"fun c => match c with (dy, a, b, r) => v_eqb (eager (if dy then vectorise2 {f2} a b else vectorise1 {f1} a)) r end")
+    chk = (f"fun c : (bool * v * v * v) => match c with (dy, a, b, r) => v_eqb (eager (if dy then vectorise2 {f2} a b else vectorise1 {f1} a)) r end")
     ok, bad, logs = env.coq_mismatches("vec", PRE, lambda lo, hi: V.clist((case_coq(c) for c in good[lo:hi]), "(bool * v * v * v)"), chk, len(good), shard=250)
     if not ok:
         env.proof_broken("vectorise correspondence cases failed to evaluate", logs)
@@ -551,11 +570,11 @@ def element_tie(env, gd, passed):
         a = cv_in(args[0], modes[0])
         if len(args) == 2:
             b = cv_in(args[1], modes[1])
-            tbl = V.clist((f"({cv(k[0])}, {cv(k[1])}, {cv(r)})" for k, r in leaves), "(v * v * v)")
+            tbl = V.clist((f"({cv_in(k[0][0], k[1][0])}, {cv_in(k[0][1], k[1][1])}, {cv(r)})" for k, r in leaves), "(v * v * v)")
             return f"({V.cstr(key)}, {a}, {b}, ([] : list (v * v)), {tbl}, {cv(got)})"
-        tbl = V.clist((f"({cv(k[0])}, {cv(r)})" for k, r in leaves), "(v * v)")
+        tbl = V.clist((f"({cv_in(k[0][0], k[1][0])}, {cv(r)})" for k, r in leaves), "(v * v)")
         return f"({V.cstr(key)}, {a}, VErr, {tbl}, ([] : list (v * v * v)), {cv(got)})"
-    chk = ("fun c => match c with (k, a, b, t1, t2, r) => match find_entry k curated with "
+    chk = ("fun c : (str * v * v * list (v * v) * list (v * v * v) * v) => match c with (k, a, b, t1, t2, r) => match find_entry k curated with "
            "| Some e => v_eqb (eager (match de_arity e with "
            "| 1%nat => elem1 (de_tree e) default_flags (fun _ => false) (lookup1 t1) a "
            "| _ => elem2 (de_tree e) default_flags (fun _ => false) (lookup2 t2) a b end)) r "
@@ -584,7 +603,9 @@ def run(env):
                 "2 quick / 3 thorough, length <= 3 / 5) x shapes list, list-scalar, scalar-list, list-list equal, list-list unequal x "
                 "representations (Python list / LazyList per argument; thorough also top-only and below-top-only lazy): element(lists) == nested list of "
                 "element(items). A case is NON-TRIVIAL when every scalar application succeeded and the comparison was made (cases where a "
-                "scalar overload rejects the item types are skipped and counted per reason); distinct by (element, arguments, representation). "
+                "scalar overload rejects the item types are skipped and counted per reason; an (element, argument types) pair for which "
+                "elements.yaml documents an overload taking the list and the element implements one is excluded at the top level and "
+                "taken as a leaf below it -- listed under documented_overloads_excluded); distinct by (element, arguments, representation). "
                 "Model ties inside Coq: vectorise/zip_fill vs elements.vectorise with a symbolic function; generic element with each "
                 "regenerated skeleton and the implementation's scalar results vs the element on lists.")
     by = {r["key"]: r for r in gd["entries"]}
@@ -592,15 +613,15 @@ def run(env):
     env.note("documented_vectorising", gd["documented_vectorising"])
     env.note("curated_shapes", dict(collections.Counter(by[k]["tree"]["k"] for k in gd["curated"])))
     env.note("skeleton_incomplete_shapes", {k: [" ".join(x["tags"]) for x in by[k]["incomplete"]] for k in gd["curated"] if by[k]["incomplete"]})
-    env.note("exempted_shapes_from_known_findings", gd.get("exempt", []))
+    env.note("documented_overloads_excluded", [{"element": x["key"], "function": x["fn"], "argument_types": [TAGNAME[t] for t in x["tags"]],
+                                                "elements_yaml_overload": x["doc_key"], "documented_text": x["text"]} for x in gd.get("doc_exempt", [])])
+    env.note("doc_overload_keys_not_understood", gd.get("doc_keys_not_understood", []))
     env.note("value_tests_in_curated_skeletons", {k: by[k]["opaque"] for k in gd["curated"] if by[k]["opaque"]})
     env.note("lazylist_call_returns_self", gd["lazylist_call_returns_self"])
-    # static verdict per element, so a build failure comes with the reason
-    exempt = {(k, tuple(t)) for k, t in gd.get("exempt", [])}
-    for k in gd["curated"]:
-        for x in by[k]["incomplete"]:
-            if (k, tuple(x["tags"])) not in exempt:
-                env.note("unexempted_incomplete:" + k + ":" + ",".join(x["tags"]), x["why"])
+    # static verdict per element, so that a failed C08_table comes with its reason
+    env.note("skeletons_not_elementwise", gd.get("not_elementwise", []))
+    if gd.get("error"):
+        env.proof_broken("translator tools/gen_dispatch.py", gd["error"])
     V.import_repo()
     mon, dy = gen_inputs(env)
     passed = oracle(env, gd, mon, dy)
@@ -610,7 +631,7 @@ def run(env):
     dynamic_only(env, gd, mon, dy)
     for p in passed[:: max(1, len(passed) // 6)][:6]:
         env.sample({"element": p[0], "shape": p[1], "args": p[2], "representation": p[3], "result": p[4]})
-    env.sample({"obligation": f"forall e, In e curated -> entry_ok c08_known e = true ({len(gd['curated'])}-entry sweep by vm_compute)"})
+    env.sample({"obligation": f"forall e, In e curated -> entry_ok doc_overloads e = true ({len(gd['curated'])}-entry sweep by vm_compute)"})
     env.assume("default context (all flags off): ḃ vectorises only while ctx.truthy_lists is False")
     env.assume("what an element does when every argument is a scalar is arbitrary (`base`); the model's Z stands for int and Rational alike")
     env.assume("Python's dict display / .get on vy_type tuples behaves as the model's Table (last equal key wins); checked per element by the element tie, not proved")
